@@ -128,20 +128,23 @@ Neighbors find_neighbors_bruteforce_impl(const RandomAccessIterator& begin, cons
     neighbors.reserve(end - begin);
     for (RandomAccessIterator iter = begin; iter != end; ++iter)
     {
+        // the query itself is never a candidate: select the k nearest among the other samples
         Distances distances;
         for (RandomAccessIterator around_iter = begin; around_iter != end; ++around_iter)
-            distances.push_back(std::make_pair(around_iter, callback.distance(iter, around_iter)));
+        {
+            if (around_iter != iter)
+                distances.push_back(std::make_pair(around_iter, callback.distance(iter, around_iter)));
+        }
 
-        std::nth_element(distances.begin(), distances.begin() + k + 1, distances.end(),
+        std::nth_element(distances.begin(), distances.begin() + k, distances.end(),
                          distances_comparator<DistanceRecord>());
 
         LocalNeighbors local_neighbors;
         local_neighbors.reserve(k);
         for (typename Distances::const_iterator neighbors_iter = distances.begin();
-             neighbors_iter != distances.begin() + k + 1; ++neighbors_iter)
+             neighbors_iter != distances.begin() + k; ++neighbors_iter)
         {
-            if (neighbors_iter->first != iter)
-                local_neighbors.push_back(neighbors_iter->first - begin);
+            local_neighbors.push_back(neighbors_iter->first - begin);
         }
         neighbors.push_back(local_neighbors);
     }
@@ -164,6 +167,10 @@ Neighbors find_neighbors_vptree_impl(const RandomAccessIterator& begin, const Ra
         LocalNeighbors local_neighbors = tree.search(i, k + 1);
         auto it = std::remove(local_neighbors.begin(), local_neighbors.end(), i - begin);
         local_neighbors.erase(it, local_neighbors.end());
+        // The query is missing from the k+1 results when at least k+1 other samples coincide
+        // with it. The search returns the farthest result first, drop it to keep exactly k.
+        if (local_neighbors.size() > static_cast<size_t>(k))
+            local_neighbors.erase(local_neighbors.begin());
         neighbors.push_back(local_neighbors);
     }
 
